@@ -88,6 +88,9 @@ impl Pairs {
     }
 }
 impl Family for Pairs {
+    fn ambient(&self, idx: u64) -> u64 {
+        crate::engine::rot(idx)
+    }
     fn name(&self) -> String {
         "count-pairs".into()
     }
@@ -141,6 +144,9 @@ impl ZeroCols {
     }
 }
 impl Family for ZeroCols {
+    fn ambient(&self, idx: u64) -> u64 {
+        crate::engine::rot(idx)
+    }
     fn name(&self) -> String {
         "zero-column-row-counts".into()
     }
